@@ -15,7 +15,8 @@
                   transposed views) *)
 From Coq Require Import List Arith Bool NArith ZArith.
 From SNT Require Import Base.Outcome Surface.Bounds Surface.Shape Surface.ShapeProofs
-  Render.CellLayout Render.Writer Render.WriterFrame View.ViewModel View.LayoutProofs View.RenderProofs.
+  Render.CellLayout Render.Writer Render.WriterFrame View.ViewModel View.LayoutProofs View.RenderProofs
+  View.PaintProofs View.FitsProofs.
 Import ListNotations.
 Local Open Scope N_scope.
 
@@ -51,6 +52,33 @@ Theorem C10_apply_to_inside : forall (H W : nat) (sh : shape) (w : window) (t : 
   (Z.of_nat (Nat.max H W) <= i64_max)%Z -> Rep H W sh w ->
   exists w', Rep H W (apply_to sh t) w' /\ forall k, in_view (apply_to sh t) k -> in_view sh k.
 Proof. exact rep_apply_to. Qed.
+
+(* (4) Layout followed by render is total: for every view tree, context and valid constraint, and every
+   surface cut out of a canvas, layout returns a tree and rendering with it completes (no panic, no
+   InvalidLayout), changing nothing outside the surface. *)
+Theorem C10_total : forall (H W : nat) (vc : vctx) (v : vtree) (c : ct) (sh : shape) (w : window) (s : rst),
+  (Z.of_nat (Nat.max H W) <= i64_max)%Z -> Valid c -> Rep H W sh w -> (H * W <= length (r_data s))%nat ->
+  exists t s', layout vc v c = Ok t /\ render vc v t sh s = Ok s' /\ Frame sh (r_data s) (r_data s').
+Proof. intros H W vc v c sh w s Hmax Hv Hrep Hlen. exact (layout_render_total H W Hmax vc v c sh w s Hv Hrep Hlen). Qed.
+
+(* (5) Every leaf paints exactly the rectangle the layout tree records for it.  `paints` walks view
+   and layout tree together and computes, in the plain-matrix window algebra of C07, the window each
+   probe leaf must be handed: the (position, size) rectangles of the layout nodes on its path, cut one
+   out of the other and clipped (win_apply).  A completed rendering pass has called the probes it
+   reaches in that order, each with a surface that IS that window (Rep); by C07 the probe's fill then
+   rewrites exactly the cells of that window. *)
+Theorem C10_paint_rect : forall (H W : nat) (vc : vctx) (v : vtree) (t : ltree) (sh : shape) (w : window) (s s' : rst),
+  (Z.of_nat (Nat.max H W) <= i64_max)%Z -> Rep H W sh w -> (H * W <= length (r_data s))%nat ->
+  render vc v t sh s = Ok s' ->
+  exists L, r_log s' = r_log s ++ L /\
+    Forall2 (fun (e : N * shape) (x : N * window) => fst e = fst x /\ Rep H W (snd e) (snd x))
+            L (paints (has_glyphs (v_r vc)) v t w).
+Proof. intros H W vc v t sh w s s' Hmax Hrep Hlen E. exact (render_log H W Hmax vc v t sh w s s' Hrep Hlen E). Qed.
+
+(* (6) Hit-testing: the path FindPath returns descends at every level into the first child whose
+   rectangle contains the (relative) position and ends where no child contains it. *)
+Theorem C10_hit_test : forall (t : ltree) (r c : N), follows t r c (find_path (depth t) t r c).
+Proof. intros t r c. apply find_path_follows. apply Nat.le_refl. Qed.
 
 Check C10_layout_total : forall (vc : vctx) (v : vtree) (c : ct), Valid c -> exists t, layout vc v c = Ok t.
 Check C10_within : forall (vc : vctx) (v : vtree) (c : ct) (t : ltree),
@@ -97,9 +125,10 @@ Example C10_render_nonvacuous :
   match layout ex_vc ex_tree (mkCt 0 1 5 12) with
   | Ok t =>
       match render ex_vc ex_tree t sh (mkR (repeat (mkCell face0 (KChar 32)) 128) []) with
-      | Ok s => map fst (r_log s) = [1; 2]
+      | Ok s => map fst (r_log s) = [1; 2] /\
+                map fst (paints true ex_tree t (win_chain (win_root 8 16) [OpT; OpView (Rng 1 (-1)) (From 1)])) = [1; 2]
       | _ => False
       end
   | _ => False
   end.
-Proof. vm_compute. reflexivity. Qed.
+Proof. vm_compute. split; reflexivity. Qed.
